@@ -251,7 +251,20 @@ func (f *Frame) assumeTypeInvariants() {
 		pt := types.NewPointer(o.Type())
 		ctx := &EvalCtx{f: f, env: map[string]Val{}, heap: s.plainView(s.entry), old: s.plainView(s.entry), bound: map[string]Val{}, pkg: tc.Pkg, where: "type invariant " + k}
 		inv := ctx.typeInv(S{"r", pt})
-		s.fact(fmt.Sprintf("(forall ((r Int)) (=> (and (< 0 r) (< r %s)) %s))", s.alloc0, inv))
+		var vs []string
+		for _, cl := range tc.Views {
+			n, err := parseXExpr(cl.Text)
+			if err != nil {
+				panic(evalErr{fmt.Sprintf("%s:%d: %v", cl.File, cl.Line, err)})
+			}
+			sub := &EvalCtx{f: f, env: map[string]Val{"self": S{"r", pt}}, heap: ctx.heap, old: ctx.old, bound: map[string]Val{}, pkg: tc.Pkg,
+				where: fmt.Sprintf("%s:%d: %s", cl.File, cl.Line, cl.Text)}
+			vs = append(vs, sub.evalBool(n))
+		}
+		if len(vs) > 0 {
+			s.assume("view axioms of " + k + " define the ghost observers on this representation (definitional, unchecked)")
+		}
+		s.fact(fmt.Sprintf("(forall ((r Int)) (=> (and (< 0 r) (< r %s)) %s))", s.alloc0, and(inv, and(vs...))))
 	}
 }
 
@@ -474,7 +487,7 @@ func (f *Frame) applyContract(sig *types.Signature, ct *Contract, env map[string
 			}
 		}
 	}
-	for _, cl := range ct.Ensures {
+	for _, cl := range append(append([]Clause{}, ct.Ensures...), ct.Defines...) {
 		t := evalIn(cl, view, renv)
 		s.fact(implies(f.cur.reach, t))
 	}
